@@ -180,6 +180,31 @@ func (f *g2lFn) buildLoop(sp *loopSpec, rest kont) []string {
 		step = body
 	}
 	f.inLoop, f.brk = savedLoop, savedBrk
+	// safety net: a variable that the compiled body re-binds must be loop-carried; if the carried-variable analysis missed an
+	// assignment form, refuse to translate rather than silently dropping the update
+	capSet := map[string]bool{}
+	for _, c := range sp.captured {
+		capSet[c.name] = true
+	}
+	for _, l := range strings.Split(strings.Join(step, "\n"), "\n") {
+		t := strings.TrimSpace(l)
+		if !strings.HasPrefix(t, "let ") {
+			continue
+		}
+		end := strings.Index(t, ":=")
+		if e2 := strings.Index(t, "←"); e2 >= 0 && (end < 0 || e2 < end) {
+			end = e2
+		}
+		if end < 0 {
+			continue
+		}
+		pat := t[4:end]
+		for _, name := range strings.FieldsFunc(pat, func(r rune) bool { return r == '(' || r == ')' || r == ',' || r == ' ' }) {
+			if capSet[name] {
+				f.bad(sp.at, "internal: %s is re-bound inside the loop but was not recognised as loop-carried", name)
+			}
+		}
+	}
 	// definition
 	pats := []string{}
 	wild := []string{}
